@@ -83,18 +83,16 @@ def unrepairedProgs : List Prog :=
    ⟨[.guardEnabled, .setStop, .log, .sleep1s, .log, .closeQueue], []⟩,
    ⟨[.guardEnabled, .setStop, .log, .sleep1s, .closeConn, .log, .closeQueue], []⟩]
 
-/-- the assumption sets under which the unrepaired programs are examined below -/
-def unrepairedAssume : List Assume := [⟨false, true⟩, ⟨true, true⟩, ⟨true, false⟩]
-
 /-- the assumptions under which the repaired programs are enumerated: none, or the fact about the two 1 s
 constants; the hand-off hypothesis changes nothing for them (`handoff_irrelevant`) -/
 def timing : List Assume := [.none, ⟨false, true⟩]
 
-/-- the enumerated state sets are closed under every step, i.e. they are *all* reachable states
-(the unrepaired programs under the combinations of assumptions used below) -/
+/-- the enumerated state sets are closed under every step, i.e. they are *all* reachable states (the unrepaired
+programs under the one combination for which a universal statement is made below; the `∃` statements about them
+need no closure: the enumeration only ever adds successors of states it already holds) -/
 theorem reachable_closed :
     (∀ p ∈ progs, ∀ a ∈ timing, closedUnderNext p a = true) ∧
-    (∀ p ∈ unrepairedProgs, ∀ a ∈ unrepairedAssume, closedUnderNext p a = true) := by
+    (∀ p ∈ unrepairedProgs, closedUnderNext p ⟨true, true⟩ = true) := by
   decide +kernel
 
 /-- the hand-off hypothesis makes no difference to the repaired programs (their `shutdown()` has no `close`):
@@ -116,11 +114,19 @@ def measure (p : Prog) (s : St) : Nat :=
     | .atCheck => 2 + p.afterLoop.length | .havePacket => 3 + p.afterLoop.length | .inRead => 4 + p.afterLoop.length)
   + (p.shutdown.length - s.spc)
 
+/-- one enumeration for the three safety statements below (each reachable state of each program, no assumption) -/
+theorem safety_all_interleavings :
+    ∀ p ∈ progs, ∀ s ∈ reachable p .none,
+      s.panicked = false ∧
+      (s.closed = true → s.stop = true ∧ s.pastLoop = true ∧ s.rpc ≠ .leaving 0) ∧
+      s.readsAfterStop ≤ 1 := by decide +kernel
+
 /-- **C15 (no panic)**: no interleaving sends on the closed queue or closes it twice — with no assumption on
 timing or scheduling (`Assume.none`: every interleaving of the atomic steps): not the hand-off hypothesis `H`,
 not the 1 s constants. (Before the F21 repair: `no_send_on_closed_queue_partial`, under hypothesis `H` in the
 timed model only.) -/
-theorem no_send_on_closed_queue : ∀ p ∈ progs, ∀ s ∈ reachable p .none, s.panicked = false := by decide +kernel
+theorem no_send_on_closed_queue : ∀ p ∈ progs, ∀ s ∈ reachable p .none, s.panicked = false :=
+  fun p hp s hs => (safety_all_interleavings p hp s hs).1
 
 /-- the same under any combination of the assumptions (they only remove interleavings) -/
 theorem no_send_on_closed_queue_assuming : ∀ p ∈ progs, ∀ a ∈ Assume.all, ∀ s ∈ reachable p a, s.panicked = false := by
@@ -141,7 +147,8 @@ theorem no_send_on_closed_queue_assuming : ∀ p ∈ progs, ∀ a ∈ Assume.all
 /-- the reason: the queue is closed only by the reader, after it has left its loop for good -/
 theorem closed_only_after_loop :
     ∀ p ∈ progs, ∀ s ∈ reachable p .none, s.closed = true →
-      s.stop = true ∧ s.pastLoop = true ∧ s.rpc ≠ .leaving 0 := by decide +kernel
+      s.stop = true ∧ s.pastLoop = true ∧ s.rpc ≠ .leaving 0 :=
+  fun p hp s hs => (safety_all_interleavings p hp s hs).2.1
 
 /-- regression witness (the code before the repair): without `H` the panic is reachable in every one of
 the old programs, already in the timed model (a datagram arriving in the last instant of the deadline,
@@ -166,7 +173,20 @@ theorem double_close_panics :
       s.panicked = true := by decide +kernel
 
 /-- **C15 (the read loop stops)**: after `stop` is set at most one more read completes, in every interleaving -/
-theorem at_most_one_read_after_stop : ∀ p ∈ progs, ∀ s ∈ reachable p .none, s.readsAfterStop ≤ 1 := by decide +kernel
+theorem at_most_one_read_after_stop : ∀ p ∈ progs, ∀ s ∈ reachable p .none, s.readsAfterStop ≤ 1 :=
+  fun p hp s hs => (safety_all_interleavings p hp s hs).2.2
+
+set_option synthInstance.maxSize 1024 in
+/-- one enumeration for the three statements below (each reachable state of each program, without and with the
+fact about the 1 s constants) -/
+theorem progress_all_interleavings :
+    ∀ p ∈ progs, ∀ a ∈ timing, ∀ s ∈ reachable p a,
+      (s.stop = true →
+        (∀ t ∈ next p a s, measure p t < measure p s) ∧
+        (next p a s = [] → s.rpc = .exited ∧ s.spc = p.shutdown.length ∧ s.closed = true ∧ s.panicked = false)) ∧
+      (s.stop = false → s.spc ≤ 1 ∧ (shutdownSteps p a s ≠ [])) ∧
+      (s.dumped = true → s.dumpedAfterStop = true ∧ s.stop = true) ∧
+      (a.deadlines = true → s.dumped = true → s.rpc ≠ .inRead) := by decide +kernel
 
 /-- **C15 (termination)**: once `stop` is set every step of every interleaving strictly decreases
 `measure`, so the read loop exits, closes the queue, `run()` and `shutdown()` return after at most
@@ -175,13 +195,14 @@ end the queue is closed (the workers, which drain it until it is closed, termina
 theorem terminates_after_stop :
     ∀ p ∈ progs, ∀ a ∈ timing, ∀ s ∈ reachable p a, s.stop = true →
       (∀ t ∈ next p a s, measure p t < measure p s) ∧
-      (next p a s = [] → s.rpc = .exited ∧ s.spc = p.shutdown.length ∧ s.closed = true ∧ s.panicked = false) := by decide +kernel
+      (next p a s = [] → s.rpc = .exited ∧ s.spc = p.shutdown.length ∧ s.closed = true ∧ s.panicked = false) :=
+  fun p hp a ha s hs => (progress_all_interleavings p hp a ha s hs).1
 
 /-- before the signal the shutdown goroutine does not exist; once it runs, `setStop` is its first
 effective step and it is always enabled -/
 theorem stop_always_reachable :
-    ∀ p ∈ progs, ∀ a ∈ timing, ∀ s ∈ reachable p a, s.stop = false → s.spc ≤ 1 ∧ (shutdownSteps p a s ≠ []) := by
-  decide +kernel
+    ∀ p ∈ progs, ∀ a ∈ timing, ∀ s ∈ reachable p a, s.stop = false → s.spc ≤ 1 ∧ (shutdownSteps p a s ≠ []) :=
+  fun p hp a ha s hs => (progress_all_interleavings p hp a ha s hs).2.1
 
 /-- **C15 (dump)**: whenever the cache has been dumped, `stop` had been set (the dump statement comes after
 `setStop` and `sleep1s`); and, given the fact about the two 1 s constants, the grace period has done its work:
@@ -192,7 +213,8 @@ queue whichever of dump and close comes first. -/
 theorem dump_after_stop_and_sleep :
     ∀ p ∈ progs, ∀ a ∈ timing, ∀ s ∈ reachable p a,
       (s.dumped = true → s.dumpedAfterStop = true ∧ s.stop = true) ∧
-      (a.deadlines = true → s.dumped = true → s.rpc ≠ .inRead) := by decide +kernel
+      (a.deadlines = true → s.dumped = true → s.rpc ≠ .inRead) :=
+  fun p hp a ha s hs => (progress_all_interleavings p hp a ha s hs).2.2
 
 /-- non-vacuity: the state spaces are not trivial, and the final state (reader exited, queue closed by it,
 shutdown done, no panic) is reachable -/
